@@ -71,6 +71,11 @@ def _change_mask(m, depth=0):
                 if len(y.rolled) > 2 and y.axes is not None and len(y.axes) > 1 and y.rolled[2] != 'frame':
                     return None  # rolled along another axis (or flattened): not a comparison of consecutive frames
                 return (0 if y.rolled[0] == -1 else 1, True)
+        # x[1:] != x[:-1] (either order): element t compares frame t + 1 with frame t, no wrap-around comparison exists
+        if l is not None and r is not None and l.shifted is not None and r.shifted is not None and l.shifted[1] == r.shifted[1]:
+            a_, b_ = (l.shifted, r.shifted) if l.shifted[0] >= r.shifted[0] else (r.shifted, l.shifted)
+            if a_[0] - b_[0] == 1 and b_[0] == 0 and a_[3] == 0 and b_[3] == 1 and (a_[2] in (None, 'frame')):
+                return (0, False)
         return None
     if m.bin is not None and m.bin[0] in ('|', '&'):
         a, b = _change_mask(m.bin[1], depth + 1), _change_mask(m.bin[2], depth + 1)
